@@ -156,6 +156,8 @@ func runC10(c *Ctx) {
 	p := c.P
 	checkErrnoWrappedOnce(c, "R17")
 	checkOverrideInterfacesConsulted(c, "R18")
+	// R19 (= C06.R2): an attribute block is framed by its flags word alone (a flag announced is a field encoded)
+	c.withOnly("R2", "R19", func() { runC06(c) })
 	pos := func(in ssa.Instruction) string { return p.Pos(in.Pos()) }
 	worker := p.Func("(*RequestServer).packetWorker")
 	rfp := p.Func("requestFromPacket")
